@@ -1,0 +1,70 @@
+//! Verification hooks (C12): thin read-only wrappers around the private Tweedie pieces.
+//! Compiled only with `--cfg linfa_verif` (declared from `glm/mod.rs`, whose private items it reads).
+use super::distribution::TweedieDistribution;
+use super::{Link, TweedieProblem};
+use argmin::core::{CostFunction, Gradient};
+use ndarray::{Array1, Array2, ArrayView1};
+
+/// `TweedieDistribution::new(power)` then `in_range(y)`; `Err` carries the error text
+pub fn in_range_hook(power: f64, y: ArrayView1<f64>) -> Result<bool, String> {
+    let d = TweedieDistribution::new(power).map_err(|e| e.to_string())?;
+    Ok(d.in_range(&y))
+}
+
+pub fn deviance_hook(power: f64, y: ArrayView1<f64>, ypred: ArrayView1<f64>) -> Result<f64, String> {
+    let d = TweedieDistribution::new(power).map_err(|e| e.to_string())?;
+    d.deviance(y, ypred).map_err(|e| e.to_string())
+}
+
+pub fn deviance_derivative_hook(
+    power: f64,
+    y: ArrayView1<f64>,
+    ypred: ArrayView1<f64>,
+) -> Result<Array1<f64>, String> {
+    let d = TweedieDistribution::new(power).map_err(|e| e.to_string())?;
+    Ok(d.deviance_derivative(y, ypred))
+}
+
+/// `TweedieProblem::cost` at `p` (intercept first when `fit_intercept`)
+pub fn tweedie_cost_hook(
+    x: &Array2<f64>,
+    y: &Array1<f64>,
+    fit_intercept: bool,
+    link: Link,
+    power: f64,
+    alpha: f64,
+    p: &Array1<f64>,
+) -> Result<f64, String> {
+    let dist = TweedieDistribution::new(power).map_err(|e| e.to_string())?;
+    let problem = TweedieProblem {
+        x: x.view(),
+        y: y.view(),
+        fit_intercept,
+        link: &link,
+        dist,
+        alpha,
+    };
+    problem.cost(p).map_err(|e| e.to_string())
+}
+
+/// `TweedieProblem::gradient` at `p` (intercept first when `fit_intercept`)
+pub fn tweedie_gradient_hook(
+    x: &Array2<f64>,
+    y: &Array1<f64>,
+    fit_intercept: bool,
+    link: Link,
+    power: f64,
+    alpha: f64,
+    p: &Array1<f64>,
+) -> Result<Array1<f64>, String> {
+    let dist = TweedieDistribution::new(power).map_err(|e| e.to_string())?;
+    let problem = TweedieProblem {
+        x: x.view(),
+        y: y.view(),
+        fit_intercept,
+        link: &link,
+        dist,
+        alpha,
+    };
+    problem.gradient(p).map_err(|e| e.to_string())
+}
